@@ -1,6 +1,7 @@
 import PytezosModel.Proofs.InterpStack
 import PytezosModel.Proofs.InterpComb
 import PytezosModel.Proofs.InterpArith
+import PytezosModel.Proofs.InterpColl
 import PytezosModel.Michelson.Interp.Spec
 /-! Instructions without sub-programs: the mirror's pop/push sequences against the reference rules. -/
 namespace Interp
@@ -376,6 +377,48 @@ theorem execSubMutez_eq (a b : Val) (h : Spec.subMutezV a b ≠ .err) : Impl.exe
       cases hq : Spec.numOk .mutez (x - y) <;> simp_all
   · exact absurd rfl h
 
+/-- instructions of the form `a, b, c = pop3(); res = f(a, b, c); push(res)` -/
+theorem step_ternop (i : Instr) (f g : Val → Val → Val → Res Val)
+    (hs : ∀ a b c st, Spec.step env i (a :: b :: c :: st) = (f a b c).bind fun r => .ok (r :: st))
+    (hs0 : Spec.step env i [] = .err) (hs1 : ∀ a, Spec.step env i [a] = .err) (hs2 : ∀ a b, Spec.step env i [a, b] = .err)
+    (hi : ∀ s, Impl.step env i s = (do let (a, b, c, s) ← s.pop3; let r ← g a b c; pure (s.push r)))
+    (hfg : ∀ a b c, f a b c ≠ .err → g a b c = f a b c)
+    (hr : Spec.step env i st ≠ .err) :
+    Impl.step env i (stk pre st) = (Spec.step env i st).map' (stk pre) := by
+  rcases st with _ | ⟨a, _ | ⟨b, _ | ⟨c, st⟩⟩⟩
+  · exact absurd hs0 hr
+  · exact absurd (hs1 a) hr
+  · exact absurd (hs2 a b) hr
+  rw [hs] at hr ⊢
+  have h1 := bind_ne_err_step hr
+  rw [hi, pop3_mk_cons]
+  simp only [Res.bind_ok, hfg a b c h1]
+  cases hq : f a b c with
+  | err => exact absurd hq h1
+  | failed v => simp
+  | ok r => simp
+
+theorem step_GET_AND_UPDATE (hr : Spec.step env .GET_AND_UPDATE st ≠ .err) :
+    Impl.step env .GET_AND_UPDATE (stk pre st) = (Spec.step env .GET_AND_UPDATE st).map' (stk pre) := by
+  rcases st with _ | ⟨a, _ | ⟨b, _ | ⟨c, st⟩⟩⟩
+  · exact absurd rfl hr
+  · exact absurd (by cases a <;> rfl) hr
+  · exact absurd (by cases a <;> rfl) hr
+  have hs : Spec.step env .GET_AND_UPDATE (a :: b :: c :: st)
+      = (Spec.getAndUpdateV a b c).bind fun r => .ok (r.1 :: r.2 :: st) := rfl
+  rw [hs] at hr ⊢
+  have h1 := bind_ne_err_step hr
+  have hi : Impl.step env .GET_AND_UPDATE (stk pre (a :: b :: c :: st))
+      = (do let (a, b, c, s) ← (stk pre (a :: b :: c :: st)).pop3
+            let r ← Impl.execGetAndUpdate a b c
+            pure ((s.push r.2).push r.1)) := rfl
+  rw [hi, pop3_mk_cons]
+  simp only [Res.bind_ok, execGetAndUpdate_eq a b c h1]
+  cases hq : Spec.getAndUpdateV a b c with
+  | err => exact absurd hq h1
+  | failed v => simp
+  | ok r => simp
+
 theorem step_SLICE (hr : Spec.step env .SLICE st ≠ .err) :
     Impl.step env .SLICE (stk pre st) = (Spec.step env .SLICE st).map' (stk pre) := by
   rcases st with _ | ⟨a, st⟩
@@ -520,6 +563,21 @@ theorem step_refines (env : Env) (i : Instr) (pre st : List Val) (hr : Spec.step
           cases Impl.bytesVals xs <;> simp_all
       all_goals simp [Spec.step] at hr
   case SLICE => exact step_SLICE env pre st hr
+  case EMPTY_SET t =>
+    simp only [Spec.step] at hr ⊢
+    by_cases h : Typing.simpleComparable t = true
+    · simp [Impl.step, h]
+    · simp [h] at hr
+  case MEM =>
+    exact step_binop env pre st .MEM Spec.memV Impl.execMem (fun _ _ _ => rfl) rfl (fun a => by cases a <;> rfl)
+      (fun _ => rfl) execMem_eq hr
+  case GET =>
+    exact step_binop env pre st .GET Spec.getV Impl.execGet (fun _ _ _ => rfl) rfl (fun a => by cases a <;> rfl)
+      (fun _ => rfl) execGet_eq hr
+  case UPDATE =>
+    exact step_ternop env pre st .UPDATE Spec.updateV Impl.execUpdate (fun _ _ _ _ => rfl) rfl (fun a => by cases a <;> rfl)
+      (fun a b => by cases a <;> rfl) (fun _ => rfl) execUpdate_eq hr
+  case GET_AND_UPDATE => exact step_GET_AND_UPDATE env pre st hr
   case PAIRN n => exact step_PAIRN env pre st n hr
   case UNPAIRN n => exact step_UNPAIRN env pre st n hr
   case GETN n => exact step_GETN env pre st n hr
